@@ -106,6 +106,9 @@ class SelectExtractor(BaseExtractor, SourceHandlerMixin):
                                     "bracketed"
                                 ):
                                     expressions = bracketed.get_children("expression")
+                                    if len(expressions) < 4:
+                                        # not the (staging, min, max, target) form: no tables to report
+                                        return
                                     holder.add_read(
                                         SqlFluffTable(
                                             escape_identifier_name(expressions[0].raw)
